@@ -2,11 +2,13 @@ CONSTANTS
   Cmds = {"read", "set", "trigger"}
   Objs = {"x", "y"}
   HA = 2
-  PA = 4
+  PA = 3
   HB = 3
   PB = 1
   BCmds = {"read", "set", "trigger"}
   BObjs = {"x", "y"}
+  HC = 1
+  PC = 4
   LimPlan = 3
   LimR = 1
   SetR = 2
